@@ -822,7 +822,7 @@ func workerMain(c *vlib.Ctx, shard, nshards int) {
 
 func main() {
 	debug.SetGCPercent(-1) // no collection (hence no address reuse) inside an execution; see explorer.explore
-	warmLongRunExpect() // before anything else touches the package under test
+	warmLongRunExpect()    // before anything else touches the package under test
 	c := vlib.NewCtx()
 	if c.Prop != "C07" {
 		vlib.HarnessError("vsched serves C07 only")
